@@ -200,7 +200,9 @@ func checkFastaRecords(c *Ctx, pc *ssa.Function, out *ssa.Parameter) {
 				return
 			}
 			t := view.T(g, cl)
-			if !t.contains(func(x *Term) bool { return x.isCall("(*bufio.Reader).ReadString") || x.isCall("(*bufio.Reader).ReadLine") || x.isCall("(*bufio.Reader).ReadBytes") }) {
+			if !t.contains(func(x *Term) bool {
+				return x.isCall("(*bufio.Reader).ReadString") || x.isCall("(*bufio.Reader).ReadLine") || x.isCall("(*bufio.Reader).ReadBytes")
+			}) {
 				return
 			}
 			if cs, ok := t.Args[1].constStr(); ok && strings.Contains(cs, "\n") && !strings.Contains(cs, "\r") {
